@@ -27,7 +27,8 @@ def run(ctx):
                 'undefined, unimplemented-extension rows undefined or NotImplementedError. The witness plus N solver-generated members of '
                 'each region are executed (N=24 quick, 400 thorough), and random words are compared directly (independent of '
                 'the enumeration). For defined rows every reference operand (vf/ref/sem.py decode stage) is compared with the attributes '
-                'of the object from_bitarray returns, under several processor states. Non-trivial: the reference row is a defined '
+                'of the object from_bitarray returns, under several processor states. History independence: one long-lived instance decodes a word in ARM '
+                'state, the same numeric word in Thumb state and again in ARM state; each answer must equal the stateless decoder. Non-trivial: the reference row is a defined '
                 'instruction; distinct = distinct word.')
     ctx.technique = 'concolic path enumeration as a generator + differential testing against reference encoding tables'
     ctx.assumptions = ['vf/ref/enc_arm.py is a faithful transcription of the ARM encoding diagrams',
@@ -36,6 +37,7 @@ def run(ctx):
     SPEC.compute_joint()
     tasks = [(chk.region_shard, ('vf.props.c06:SPEC', i, ns, ctx.shard_seed(i), ctx.n(24, 400))) for i in range(ns)]
     tasks += [(chk.random_shard, ('vf.props.c06:SPEC', ctx.shard_seed(100 + i), ctx.n(6000, 150000))) for i in range(16)]
+    tasks += [(chk.history_shard, ('vf.props.c06:SPEC', 'vf.props.c07:SPEC32', ctx.shard_seed(300 + i), ctx.n(3000, 60000))) for i in range(4)]
     ctx.pmap(_dispatch, tasks)
     ctx.acc.exhaustive = True
     ctx.acc.extra['exhaustive_part'] = 'class selection over all 2^32 words via the joint region partition'
@@ -46,4 +48,7 @@ def _dispatch(fn, args):
 
 
 def replay(case, bucket=None):
+    if case.get('kind') == 'history':
+        from vf.props import c07
+        return chk.replay_history(SPEC, c07.SPEC32, case['word'])
     return chk.replay_word(SPEC, case['word'])
